@@ -430,8 +430,23 @@ def pyval(s):
     return float(s)
 
 
-def asm_par(a, xdir):
-    L = ['[Global]', 'xsec_path = %s' % xdir, '[Chemistry]', 'chemistry_type = %s' % a['chem'], 'fill_gases = H2,He', 'ratio = 0.2']
+def asm_chem_file(tmp):
+    """Two fill-gas columns (H2, He) for the 30 layers of the assemblies: the file of the `makefree+file` form."""
+    f = os.path.join(tmp, 'asm_chem.dat')
+    if not os.path.exists(f):
+        np.savetxt(f, np.column_stack([np.full(30, 0.85), np.full(30, 0.15)]))
+    return f
+
+
+def asm_par(a, xdir, files=None):
+    form = a.get('chemform', 'plain')
+    L = ['[Global]', 'xsec_path = %s' % xdir, '[Chemistry]', 'chemistry_type = %s' % a['chem']]
+    if form == 'composite':         # mixins.rst: makefree+file, the gas sub-sections are injected into the file profile
+        L += ['filename = %s' % files['chemfile'], 'gases = H2, He']
+    elif form == 'custom':          # custom.rst: the class of python_file, its constructor keywords are keys
+        L += ['python_file = %s' % files['chemistry_duck'], 'base_gas = H2']
+    else:
+        L += ['fill_gases = H2,He', 'ratio = 0.2']
     for mol, g in (('H2O', a['gas1']), ('CH4', a['gas2'])):
         L += ['    [[%s]]' % mol, '    gas_type = %s' % g] + ['    %s = %s' % kv for kv in ASM_VALUES[g].items()]
     L += ['[Temperature]', 'profile_type = %s' % a['temp']] + ['%s = %s' % kv for kv in ASM_VALUES[a['temp']].items()]
@@ -445,14 +460,29 @@ def asm_par(a, xdir):
         L += ['    [[%s]]' % c] + ['    %s = %s' % kv for kv in ASM_VALUES[c].items()]
     if a['binning'] != 'none':
         L += ['[Binning]', 'bin_type = manual', 'wavenumber_grid = 500, 1900, 8', 'accurate = %s' % ('True' if a['binning'] == 'flux' else 'False')]
+    if a.get('fitting'):
+        L += ['[Fitting]']
+        for e in a['fitting']:
+            L += ['%s:fit = %s' % (e['param'], 'True' if e['fit'] else 'False'), '%s:mode = %s' % (e['param'], e['mode']),
+                  '%s:bounds = %s' % (e['param'], ', '.join(e['bounds']))]
     return '\n'.join(L) + '\n'
 
 
-def asm_library(a, classes):
+def asm_library(a, classes, files=None):
     """The same components through the library, from the specification's class names."""
     from taurex.cache import OpacityCache
     kw = lambda sel: {k: pyval(v) for k, v in ASM_VALUES[sel].items()}
-    chem = classes[a['cls']['chem']](fill_gases=['H2', 'He'], ratio=0.2)
+    form = a.get('chemform', 'plain')
+    if form == 'composite':
+        from taurex.mixin import enhance_class
+        from taurex.parameter.classfactory import ClassFactory
+        mixins = {k.__name__: k for k in ClassFactory().chemistryMixinKlasses}
+        chem = enhance_class(classes[a['cls']['chembases'][-1]], [mixins[m] for m in a['cls']['chembases'][:-1]],
+                             gases=['H2', 'He'], filename=files['chemfile'])
+    elif form == 'custom':
+        chem = MX.load_custom_class('chemistry_duck', files)(base_gas='H2')
+    else:
+        chem = classes[a['cls']['chem']](fill_gases=['H2', 'He'], ratio=0.2)
     chem.addGas(classes[a['cls']['gas1']](molecule_name='H2O', **kw(a['gas1'])))
     chem.addGas(classes[a['cls']['gas2']](molecule_name='CH4', **kw(a['gas2'])))
     temp = classes[a['cls']['temp']](**kw(a['temp']))
@@ -469,6 +499,50 @@ def asm_library(a, classes):
     return model
 
 
+def check_fitting(ctx, a, par, libmodel, cls, vec):
+    """The [Fitting] entries of the file applied by ParameterParser.setup_optimizer to an optimizer on the file-built
+    model, against the same entries set through the library (enable_fit / set_mode / set_boundary) on the library-built
+    model, and against the specification's reading of each entry (exact rationals)."""
+    import math
+    from taurex.parameter import ParameterParser
+    from taurex.optimizer import Optimizer
+    from taurex.data.spectrum.array import ArraySpectrum
+    wl = np.linspace(5.5, 20.0, 10)
+    obs = ArraySpectrum(np.column_stack([wl, np.full(10, 1e-2), np.full(10, 1e-4)]))
+
+    def state(opt):
+        opt.compile_params()
+        return dict(names=[c[0] for c in opt.fitting_parameters], bounds=[[float(b[0]), float(b[1])] for b in opt.fit_boundaries], values=[float(x) for x in opt.fit_values])
+    try:
+        pp = ParameterParser()
+        pp.read(par)
+        model = pp.generate_appropriate_model()
+        model.build()
+        o1 = Optimizer('verif-file', observed=obs, model=model)
+        pp.setup_optimizer(o1)
+        got = state(o1)
+    except BaseException as ex:
+        ctx.verdict('FittingReachesOptimizer', False, cls=cls, detail='[Fitting] %s could not be applied to the model built from the file: %s: %s' % (
+            a['fitting'], type(ex).__name__, ex), vector=vec)
+        return
+    o2 = Optimizer('verif-lib', observed=obs, model=libmodel)
+    for e in a['fitting']:
+        (o2.enable_fit if e['fit'] else o2.disable_fit)(e['param'])
+        o2.set_boundary(e['param'], [e['lo'][0] / e['lo'][1], e['hi'][0] / e['hi'][1]])
+        o2.set_mode(e['param'], e['mode'])
+    lib = state(o2)
+    ok = got == lib
+    for e in a['fitting']:      # the specification's reading of the entry
+        lo, hi = e['lo'][0] / e['lo'][1], e['hi'][0] / e['hi'][1]
+        want = [math.log10(lo), math.log10(hi)] if e['mode'] == 'log' else [lo, hi]
+        if e['fit']:
+            ok = ok and e['param'] in got['names'] and got['bounds'][got['names'].index(e['param'])] == want
+        else:
+            ok = ok and e['param'] not in got['names']
+    ctx.verdict('FittingReachesOptimizer', ok, cls=cls, detail='[Fitting] %s: the optimizer on the file-built model fits %s; set through the library: %s' % (
+        [(e['param'], e['fit'], e['mode'], e['bounds']) for e in a['fitting']], got, lib), vector=vec)
+
+
 def run_assemblies(ctx, asms, tmp, classes):
     import h5py
     import taurex.taurex as T
@@ -476,13 +550,16 @@ def run_assemblies(ctx, asms, tmp, classes):
     from taurex.binning import FluxBinner, SimpleBinner
     from taurex.log import disableLogging
     xdir = xsec_dir(tmp)
+    files = dict(MX.write_custom_files(tmp), chemfile=asm_chem_file(tmp))
     for n, a in enumerate(asms):
         cls = 'asm:%s:%s:%s' % (a['model'], a['temp'], '+'.join(a['contribs']))
+        if a.get('chemform', 'plain') != 'plain' or a.get('fitting'):
+            cls += ':chem=%s:fit=%s' % (a.get('chemform', 'plain'), a.get('fit', 'none'))
         par = os.path.join(tmp, 'asm%d.par' % n)
         h5 = os.path.join(tmp, 'asm%d.h5' % n)
         txt = os.path.join(tmp, 'asm%d.txt' % n)
         with open(par, 'w') as f:
-            f.write(asm_par(a, xdir))
+            f.write(asm_par(a, xdir, files))
         OpacityCache().clear_cache()
         argv = sys.argv
         sys.argv = ['taurex', '-i', par, '-o', h5, '-S', txt]
@@ -496,27 +573,33 @@ def run_assemblies(ctx, asms, tmp, classes):
         finally:
             sys.argv = argv
             disableLogging()
-        vec = dict(a, par=asm_par(a, xdir))
+        vec = dict(a, par=asm_par(a, xdir, files))
         if err:
             ctx.verdict('CLIEqualsLibrary', False, cls=cls, detail='taurex -i/-o/-S failed: ' + err, vector=vec)
             continue
         OpacityCache().clear_cache()
         GlobalCache()['xsec_path'] = xdir
-        model = asm_library(a, classes)
+        model = asm_library(a, classes, files)
         wn, spec = model.model()[:2]
+        form = a.get('chemform', 'plain')
         with h5py.File(h5, 'r') as f:
             st = f['Output/Spectra']
             h_native = st['native_spectrum'][...]
             h_wn = st['native_wngrid'][...]
             h_binned = st['binned_spectrum'][...] if 'binned_spectrum' in st else None
-            types = dict(model=f['ModelParameters/model_type'][()].decode(),
-                         temp=f['ModelParameters/Temperature/temperature_type'][()].decode(),
-                         chem=f['ModelParameters/Chemistry/chemistry_type'][()].decode(),
-                         gas1=f['ModelParameters/Chemistry/H2O/gas_type'][()].decode(),
-                         gas2=f['ModelParameters/Chemistry/CH4/gas_type'][()].decode(),
-                         press=f['ModelParameters/Pressure/pressure_type'][()].decode(),
+            rd = lambda k: f[k][()].decode() if k in f else None
+            types = dict(model=rd('ModelParameters/model_type'), temp=rd('ModelParameters/Temperature/temperature_type'),
+                         chem=rd('ModelParameters/Chemistry/chemistry_type'),
+                         gas1=rd('ModelParameters/Chemistry/H2O/gas_type'), gas2=rd('ModelParameters/Chemistry/CH4/gas_type'),
+                         press=rd('ModelParameters/Pressure/pressure_type'),
                          contribs=sorted(k for k in f['ModelParameters/Contributions']))
-        want = dict(a['cls'], contribs=sorted(a['cls']['contribs']))
+            stored_active = sorted(x.decode() if isinstance(x, bytes) else str(x) for x in np.asarray(f['ModelParameters/Chemistry/active_gases'][...]).ravel()) \
+                if 'ModelParameters/Chemistry/active_gases' in f else None
+        want = dict({k: a['cls'][k] for k in ('model', 'temp', 'chem', 'gas1', 'gas2', 'press')}, contribs=sorted(a['cls']['contribs']))
+        if form != 'plain':         # only the free chemistry stores its gas objects; a composite class has a generated name
+            for k in ('gas1', 'gas2') + (('chem',) if form == 'composite' else ()):
+                types.pop(k), want.pop(k)
+            types['active'], want['active'] = stored_active, sorted(model.chemistry.activeGases)
         ctx.verdict('ObjectGraph', types == want, cls=cls, detail='file built %s, specification %s' % (types, want), vector=vec)
         ok = h_native.shape == spec.shape and np.array_equal(h_wn, wn) and np.allclose(h_native, spec, rtol=1e-12, atol=0)
         ctx.verdict('CLIEqualsLibrary', ok, cls=cls, detail='stored native spectrum differs from the library-built model: max rel %s' % (
@@ -532,6 +615,8 @@ def run_assemblies(ctx, asms, tmp, classes):
         if h_binned is not None:
             ok = ok and np.allclose(h_binned, exp, rtol=1e-12, atol=0)
         ctx.verdict('CLIEqualsLibrary', ok, cls=cls + ':binned', detail='-S / binned spectrum differs from the library binner on the library model', vector=vec)
+        if a.get('fitting'):
+            check_fitting(ctx, a, par, model, cls, vec)
         for p in (par, h5, txt):
             if os.path.exists(p):
                 os.unlink(p)
@@ -709,8 +794,11 @@ def run(ctx):
         if not asms:
             raise Machinery('no assembly exported')
         asms = [a for a in asms if all(a['cls'][k] for k in ('temp', 'gas1', 'gas2', 'model', 'chem', 'press')) and all(a['cls']['contribs'])]
-        asms.sort(key=lambda a: json.dumps(a, sort_keys=True))
+        asms = sorted({json.dumps(a, sort_keys=True): a for a in asms}.items())
+        asms = [a for _, a in asms]
         rng.shuffle(asms)
+        famB = [a for a in asms if a['fit'] != 'none']
+        asms = [a for a in asms if a['fit'] == 'none']
         pickn = 6 if q else 40
         # make sure every model type and every temperature / gas selector appears
         chosen, seen = [], set()
@@ -725,8 +813,19 @@ def run(ctx):
         from taurex.parameter.classfactory import ClassFactory
         cf = ClassFactory()
         classes = {k.__name__: k for attr in FX.KIND_ATTR.values() for k in getattr(cf, attr)}
-        run_assemblies(ctx, chosen[:max(pickn, 10 if q else 40)], tmp, classes)
-        ctx.note('%d assembled models run through taurex.taurex.main() and compared with the library-built model (1e-12)' % len(chosen[:max(pickn, 10 if q else 40)]))
+        chosen = chosen[:max(pickn, 10 if q else 40)]
+        # family B: every form of the [Chemistry] selector (plain / composite / custom) x both [Fitting] sections
+        formsB, seenB = [], set()
+        for a in famB:
+            key = (a['chemform'], a['fit']) if q else (a['chemform'], a['fit'], a['model'], a['gas1'])
+            if key not in seenB:
+                seenB.add(key)
+                formsB.append(a)
+        if {a['chemform'] for a in formsB} != {'plain', 'composite', 'custom'}:
+            raise Machinery('assemblies: not every form of the [Chemistry] selector was exported: %s' % sorted({a['chemform'] for a in formsB}))
+        run_assemblies(ctx, chosen + formsB, tmp, classes)
+        ctx.note('%d assembled models (+ %d over the forms of the [Chemistry] selector x [Fitting] sections) run through taurex.taurex.main() and compared '
+                 'with the library-built model (1e-12)' % (len(chosen), len(formsB)))
     finally:
         shutil.rmtree(sd, ignore_errors=True)
         shutil.rmtree(tmp, ignore_errors=True)
